@@ -255,13 +255,16 @@ plan("C13", Q, weak_q + cyclic_q + [R("min-dbg", "weak", 2, 3, depth=13)])
 plan("C13", T, weak_t + cyclic_t + [R("min-dbg", "weak", 2, 3, depth=16, max_seconds=MID)])
 
 # ---- C14 new_cyclic ---------------------------------------------------------------------------------------------------------
-plan("C14", Q, cyclic_q + [R("full-dbg", "cyclic", 3, 3, depth=6, faults=1), R("full-rel", "cyclic", 2, 3, depth=8), R("full-dbg", "fin", 3, 3, depth=9, fin_menu="0,17"),
+plan("C14", Q, cyclic_q + [R("full-dbg", "cyclic", 3, 3, depth=6, closure_menu="0,2,7"),     # 7 = a nested new_cyclic inside the closure
+                R("full-dbg", "cyclic", 3, 3, depth=6, faults=1), R("full-rel", "cyclic", 2, 3, depth=8), R("full-dbg", "fin", 3, 3, depth=9, fin_menu="0,17"),
                  R("full-dbg", "fin", 3, 3, depth=7, w=1, fin_menu="0,19"), R("full-dbg", "dtor", 3, 3, depth=7, w=1, drop_menu="0,8")])
-plan("C14", T, cyclic_t + [R("full-rel", "fin", 3, 3, depth=12, fin_menu="0,1,17", max_seconds=MID), R("full-rel", "cyclic", 3, 3, depth=8, faults=1, max_seconds=MID), R("nofin-rel", "cyclic", 3, 3, depth=8, faults=1, max_seconds=MID)])
+plan("C14", T, cyclic_t + [R("full-rel", "cyclic", 4, 3, depth=8, closure_menu="0,1,2,7", max_seconds=MID),
+                R("full-rel", "fin", 3, 3, depth=12, fin_menu="0,1,17", max_seconds=MID), R("full-rel", "cyclic", 3, 3, depth=8, faults=1, max_seconds=MID), R("nofin-rel", "cyclic", 3, 3, depth=8, faults=1, max_seconds=MID)])
 
 # ---- C16 saturation -----------------------------------------------------------------------------------------------------------
 plan("C16", Q, [R("full-dbg", "sat", 1, 2, depth=6, sat_k=1), R("full-rel", "sat", 2, 2, depth=6, sat_k=1), R("full-rel", "sat", 1, 2, depth=8, sat_k=0, w=1, fin_menu="0,1"),
-                 R("full-rel", "sat", 2, 2, depth=7, sat_k=0, w=1)])       # 16382 references all owned by a traced bag of another object
+                 R("full-rel", "sat", 2, 2, depth=7, sat_k=0, w=1),        # 16382 references all owned by a traced bag of another object
+                 R("full-rel", "sat", 2, 3, depth=6, sat_k=0)])            # ... which is itself part of a garbage cycle with its owner
 plan("C16", T, [R("full-rel", "sat", 1, 2, depth=11, sat_k=1, w=1, fin_menu="0,1", max_seconds=MID), R("full-dbg", "sat", 1, 2, depth=8, sat_k=2), R("full-rel", "sat", 2, 2, depth=8, sat_k=2, max_seconds=MID), R("nofin-rel", "sat", 1, 2, depth=7, sat_k=1),
                  R("full-rel", "sat", 2, 2, depth=9, sat_k=1, w=1, max_seconds=MID), R("full-dbg", "sat", 2, 3, depth=7, sat_k=0, w=1, max_seconds=MID)])
 
